@@ -104,7 +104,8 @@ def obsOf (m : MState) : Args :=
      -- the byte layout of the storage: `encode` of the model state, rendered as the harness renders the real
      -- storage (`scen_cw4group::render_raw_keys`); probes = the first two pool addresses.  `resyncOf` does not
      -- read this field (everything it shows is determined by the fields above).
-     ("rawkeys", RawStore.renderRawKeys (m.pool.take 2) (encode s))]
+     ("rawkeys", RawStore.renderRawKeys (m.pool.take 2) (encode s)),
+     ("rawextra", "")]
 
 /-! ## Re-synchronisation -/
 
